@@ -27,9 +27,10 @@ PROPERTY = 'C18'
 RULE = ('random sequential/time-travel programs + examples/*.hid; each compiled twice in-process and once per hash seed '
         '{0,1,2,3 + 2 random} in fresh interpreters at (word,stack,unchecked) combinations; each run on a stack ladder '
         '(first winning size and 3 larger) and at word sizes 2,3,4,8; lint on/off (unreachable statements generated with '
-        'probability 0.3); non-trivial = the program has >= 2 functions, >= 1 string constant and >= 1 global (the tables '
+        'probability 0.3, plus the enumerated grid of 12 non-falling-through statements x 10 dead statements x 3 places); '
+        'one fresh interpreter per shard runs under python -O and one under -OO; non-trivial = the program has >= 2 functions, >= 1 string constant and >= 1 global (the tables '
         'whose order could vary); distinct by hash of source')
-ASSUMPTIONS = common.ISA_ASSUMPTIONS[:3] + ['"any process" is sampled by 6 hash seeds per run']
+ASSUMPTIONS = common.ISA_ASSUMPTIONS[:3] + ['"any process" is sampled by 6 fresh interpreter processes per shard: 6 hash seeds, one of them under python -O and one under python -OO']
 REQUIRED_HIDC_FUNCTIONS = ['codegen/generator:CodeGen.gen_lines', 'codegen/generator:CodeGen.add_label']     # M-COV: deciding code never entered => inconclusive
 MIN_NONTRIVIAL = {'quick': 60, 'thorough': 600}
 MAX_STEPS = 400_000
@@ -87,7 +88,45 @@ class Tracking(RefInt):
 def plan(tier, seed):
     n, per = (16, 10) if tier == 'quick' else (48, 50)
     return [{'kind': 'gen', 'seed': s, 'count': per, 'hashseeds': ['0', '1', '2', '3', str(10 + s % 97), str(1000 + s)]}
-            for s in common.shard_seeds(seed, n)]
+            for s in common.shard_seeds(seed, n)] + [{'kind': 'lint', 'part': i, 'parts': 2} for i in range(2)]
+
+
+def lint_grid():
+    """every kind of statement that never falls through, followed directly by every kind of dead statement, at function
+    level and inside a loop: --lint must reject the program or leave the generated code as it is without --lint"""
+    stoppers = {
+        'return': 'return;', 'infinite while': 'while (true) { }', 'infinite for': 'for (;;) { x += 1; }', 'all_is_win': 'all_is_win();',
+        'all_is_broken': 'all_is_broken();', 'if/else of returns': 'if (x > 1) { return; } else { return; }',
+        'nested block return': '{ write(x); return; }', 'break': 'break;', 'continue': 'continue;',
+        'if/else break/continue': 'if (x > 1) { break; } else { continue; }', 'defeat': '!is_defeat();',
+        'truth_is_defeat(true)': '!truth_is_defeat(true);',
+    }
+    dead = {'return': 'return;', 'break': 'break;', 'continue': 'continue;', 'write': "write('d');", 'declaration': 'int q = x;',
+            'assignment': 'x += 1;', 'empty block': '{ }', 'if': "if (x > 2) { write('e'); }", 'loop': 'while (x > 5) { x -= 1; }', 'call': 'other(x);'}
+    for sn, st in stoppers.items():
+        for dn, dd in dead.items():
+            for place in ('function', 'loop', 'if arm'):
+                in_loop = place == 'loop'
+                if (st in ('break;', 'continue;') or 'break' in st or dd in ('break;', 'continue;')) and not in_loop:
+                    continue
+                defeat = 'defeat' in sn
+                inner = f'{st} {dd}'
+                if place == 'loop':
+                    inner = f'for (int i = 0; i < 3; i += 1) {{ x += i; {inner} }}'
+                elif place == 'if arm':
+                    inner = f"if (x > 0) {{ {inner} }} write('m');"
+                fname = '!work' if defeat else 'work'
+                call = f'try {{ {fname}(a); }} undo {{ write(\'u\'); }}' if defeat else f'{fname}(a);'
+                yield (f'{sn} then {dn} in {place}',
+                       f"empty other(int k) {{ write(k); }}\nempty {fname}(int x) {{ write('s'); {inner} }}\n"
+                       f"empty @is_you(int a) {{ {call} writeln(a); }}\n")
+
+
+def signed_sleeps(stream, word):
+    """the VM records a sleep duration as the unsigned word it finds; sleep(-97) is 65439 at 16 bits and 16777119 at
+    24 bits although the program computed the same value: compare durations as signed values of the word size"""
+    bits = 8 * word
+    return [('sleep', e[1] - (1 << bits) if e[1] >> (bits - 1) else e[1]) if e[0] == 'sleep' else e for e in stream]
 
 
 def digest(lines):
@@ -97,6 +136,33 @@ def digest(lines):
 def run_shard(spec):
     res = runner.new_result()
     CompilerError, _ = env.compiler_error_types()
+    if spec.get('kind') == 'lint':
+        for k, (tag, src) in enumerate(lint_grid()):
+            if k % spec['parts'] != spec['part']:
+                continue
+            res['evaluations'] += 1
+            case = diff.case_dict(src, ['3'], 2, 500, lint=True, gen='lint grid: ' + tag)
+            try:
+                plain = env.compile_src(src, word=2, stack=500)
+            except CompilerError as e:
+                runner.fail(res, 'M-LINT', f'{tag}: rejected without --lint: {e}', case)
+                continue
+            try:
+                linted = env.compile_src(src, word=2, stack=500, lint=True)
+            except CompilerError:
+                runner.count(res, 'lint_rejected')
+                res['nontrivial'].append(runner.case_id('lint', src))
+                continue
+            except Exception as e:  # noqa
+                runner.fail(res, 'M-EXC', f'--lint: {type(e).__name__}: {e}', case)
+                continue
+            if linted != plain:
+                runner.fail(res, 'M-LINT', f'{tag}: --lint accepted the program but changed the emitted code', case)
+            else:
+                runner.count(res, 'lint_accepted_identical')
+                res['nontrivial'].append(runner.case_id('lint', src))
+        res['exhaustive'] = True
+        return res
     rng = random.Random(spec['seed'])
     jobs = []
     local = []
@@ -150,10 +216,14 @@ def run_shard(spec):
             local.append(d1)
     wenv = dict(os.environ)
     wenv['PYTHONPATH'] = env.VERIF + os.pathsep + env.REPO
-    for hs in spec['hashseeds']:
+    # interpreter modes of the compiling process: plain, -O (asserts stripped), -OO (docstrings stripped too)
+    modes = [[]] * len(spec['hashseeds'])
+    modes[1:3] = [['-O'], ['-OO']]
+    for hs, flags in zip(spec['hashseeds'], modes):
         wenv['PYTHONHASHSEED'] = hs
+        hs = hs + (' python ' + flags[0] if flags else '')
         try:
-            p = subprocess.run([sys.executable, '-m', 'hidverif.compile_batch'], input=json.dumps(jobs), env=wenv,
+            p = subprocess.run([sys.executable] + flags + ['-m', 'hidverif.compile_batch'], input=json.dumps(jobs), env=wenv,
                                cwd=env.VERIF, capture_output=True, text=True, timeout=900)
             remote = json.loads(p.stdout)
         except Exception as e:  # noqa
@@ -218,7 +288,8 @@ def run_shard(spec):
                 o = run.outcome
                 if base is None:
                     base = o
-                elif o.stream != base.stream or o.klass != base.klass:
+                    base_stream = signed_sleeps(o.stream, 2)
+                elif signed_sleeps(o.stream, word) != base_stream or o.klass != base.klass:
                     runner.fail(res, 'M-WORD', f'all values fit 16 bits, yet word size {word} gives {o.klass} {o.out[:60]!r} '
                                                f'and word size 2 gives {base.klass} {base.out[:60]!r}',
                                 diff.case_dict(src, args, word, diff.GENEROUS_STACK), expected=base.brief(), observed=o.brief())
